@@ -47,3 +47,20 @@ package conf
 //@   loop 1 invariant -1 <= rangeindex
 //@   ensures [unreadable-file] ret(os.ReadFile, 1) != nil ==> result == ret(os.ReadFile, 1)
 //@   ensures [content-loaded-as-read-unless-env-expansion] result == nil && !local(opt).env ==> calls(os.ExpandEnv) == 0
+
+// toCamelCase, rune by rune (the canonical form of a key): the first letter of a word is lower-cased - or
+// upper-cased right after an underscore -, an underscore is dropped, blanks start a new word and are kept, every
+// other rune is kept; so snake_case and a different initial case meet the struct's lower-cased field names.
+//@ func toCamelCase
+//@   prop C05
+//@   let r = rangerune
+//@   let isCap = r >= 65 && r <= 90
+//@   let isLow = r >= 97 && r <= 122
+//@   let letter = isCap || isLow
+//@   let first = at_head(boundary) && letter
+//@   let out = ite(first && at_head(capNext) && isLow, r - 32, ite(first && !at_head(capNext) && isCap, r + 32, r))
+//@   loop 1 iteration-ensures [underscore-dropped-next-letter-upper] r == 95 ==> calls(WriteRune) == 0 && capNext && boundary
+//@   loop 1 iteration-ensures [letter-written-in-word-case] letter ==> calls(WriteRune) == 1 && arg(WriteRune, 1) == out && !capNext && boundary == (at_head(boundary) && !letter)
+//@   loop 1 iteration-ensures [blank-kept-starts-a-word] r == 32 || r == 9 ==> calls(WriteRune) == 1 && arg(WriteRune, 1) == r && !capNext && boundary
+//@   loop 1 iteration-ensures [other-rune-kept] !letter && r != 95 && r != 32 && r != 9 ==> calls(WriteRune) == 1 && arg(WriteRune, 1) == r && capNext && boundary == at_head(boundary)
+//@   ensures [result-is-the-buffer] result == ret(String)
